@@ -752,8 +752,10 @@ PROPS["C19"].update({
                   "accept-iff-documented-rule and round-trip for all byte strings up to the bound; every editing "
                   "operation keeps an accepted value acceptable and equal to the model (quick: RestrictedFileName<2>, "
                   "the same generic SemanticString code with FileName's rules; thorough: the 255-byte types); find / "
-                  "rfind; (cal) path_for shape and extract_name_from_file / extract_name_from_path isolation for "
-                  "symbolic prefixes, names, suffixes and four root constellations.",
+                  "rfind; (cal) extract_name_from_file isolation for symbolic prefixes and names: a domain with an unrelated "
+                  "prefix never extracts a name from another domain's file, and the prefix-of-a-prefix class is the open "
+                  "finding F-C19-1 (thorough tier adds own-domain round trip, suffix isolation, prefixes of different "
+                  "length and the shape of path_for).",
 })
 
 _SCHED = ("Schedules: the atomics crate (iceoryx2-pal-concurrency-sync) is swapped for a generated drop-in in which "
